@@ -8,7 +8,7 @@ the patch), then run the quick check of the property it breaks (and with --all
 every quick check) with VERIF_REPO=<copy>.  Prints a table; scratch copies are
 removed.
 
-usage: tools/seedtest.py [--all] [--confirm-only] [name ...]
+usage: tools/seedtest.py [--all] [--confirm-only] [--write [--append]] [name ...]
 """
 import json
 import os
@@ -165,7 +165,14 @@ def main():
                 r['name'], r['property'], str(meta.get('summary', '')).replace('|', '/').replace('\n', ' ')[:260],
                 str(meta.get('needs_to_manifest', '')).replace('|', '/').replace('\n', ' ')[:260],
                 r.get('tests'), r.get('demo_without'), r.get('demo_with'), caught))
-        with open(os.path.join(SEEDED, 'RESULTS.md'), 'w') as f:
+        path = os.path.join(SEEDED, 'RESULTS.md')
+        if '--append' in args and os.path.exists(path):
+            # keep the rows of the seeds that were not run now, replace / add the rows of those that were
+            ran = set(r['name'] for r in results)
+            rows = [l for l in open(path).read().splitlines()[6:]
+                    if l.startswith('| ') and l.split('|')[1].strip() not in ran]
+            lines = lines[:6] + sorted(rows + lines[6:], key=lambda l: l.split('|')[1].strip())
+        with open(path, 'w') as f:
             f.write('\n'.join(lines) + '\n')
     return 0
 
